@@ -83,6 +83,7 @@ func runC18(t *core.Tape, st *core.Stats) *core.Violation {
 	}
 
 	t.Logf("source (%s): %s", implName(srcSoft), rs.Describe())
+	st.State(core.HashString(implName(srcSoft) + rs.Describe()))
 
 	sides := []*side{{name: "source", res: src, soft: srcSoft}}
 	interesting := 0
